@@ -26,6 +26,8 @@ import collections
 
 REPO = os.environ.get("COXETER_REPO", "/repo")
 VERIF = os.path.dirname(os.path.dirname(os.path.abspath(__file__)))
+# tooling only (tools/mutate.py): where evidence/ and replays/ go; the registered commands never set it
+OUT = os.environ.get("VERIF_OUT", VERIF)
 
 
 def bind_repo():
@@ -251,7 +253,7 @@ def _run_chunk(chunk):
 
 
 def write_replay(prop, modname, v):
-    d = os.path.join(VERIF, "replays", prop)
+    d = os.path.join(OUT, "replays", prop)
     os.makedirs(d, exist_ok=True)
     body = {"property": prop, "module": modname, "sig": v["sig"], "case": v["case"], "message": v["message"], "expected": v.get("expected"), "got": v.get("got"), "tol": v.get("tol")}
     h = hashlib.sha1(json.dumps([body["sig"], body["case"]], sort_keys=True, default=repr).encode()).hexdigest()[:12]
@@ -274,6 +276,11 @@ def run_check(modname, tier):
     nproc = int(os.environ.get("VERIF_PROCS", "0") or 0) or min(16, os.cpu_count() or 1)
 
     cases = list(mod.cases(tier))
+    # tooling only (tools/mutate.py): sub-sampled, stop-at-first-violation runs; such a run is never exhaustive
+    stride = int(os.environ.get("VERIF_STRIDE", "1") or 1)
+    failfast = bool(os.environ.get("VERIF_FAILFAST"))
+    if stride > 1:
+        cases = cases[::stride]
     n_cases = len(cases)
     # determinism self-test: the first case is executed twice in this process
     det_ok = True
@@ -291,6 +298,7 @@ def run_check(modname, tier):
     random.Random(seed).shuffle(order)  # the seed only permutes shard order
 
     total = Report()
+    _kn = load_known()
     done_chunks = 0
     capped = False
     ctx = mp.get_context("fork")
@@ -299,6 +307,10 @@ def run_check(modname, tier):
         for packed in it:
             total.merge(Report.unpack(packed))
             done_chunks += 1
+            if failfast and any(match_known(prop, v, _kn) is None for v in total.violations):
+                capped = True
+                pool.terminate()
+                break
             if budget and time.time() - t0 > budget:
                 capped = True
                 pool.terminate()
@@ -328,7 +340,7 @@ def run_check(modname, tier):
         lines.append((p, vs[0], len(vs)))
 
     wall = time.time() - t0
-    exhaustive = (not capped) and not getattr(mod, "NOT_EXHAUSTIVE", False)
+    exhaustive = (not capped) and stride == 1 and not getattr(mod, "NOT_EXHAUSTIVE", False)
     cov = {
         "states": total.states,
         "transitions": total.transitions,
@@ -363,9 +375,14 @@ def run_check(modname, tier):
         "wall_s": round(wall, 2),
         "violations": len(new),
     }
-    os.makedirs(os.path.join(VERIF, "evidence"), exist_ok=True)
-    with open(os.path.join(VERIF, "evidence", prop + ".json"), "w") as f:
+    os.makedirs(os.path.join(OUT, "evidence"), exist_ok=True)
+    with open(os.path.join(OUT, "evidence", prop + ".json"), "w") as f:
         json.dump(jsonable(ev), f, indent=1)
+    if tier == "thorough":
+        # keep the last thorough run next to the (per-change) quick evidence
+        os.makedirs(os.path.join(OUT, "evidence_thorough"), exist_ok=True)
+        with open(os.path.join(OUT, "evidence_thorough", prop + ".json"), "w") as f:
+            json.dump(jsonable(ev), f, indent=1)
 
     print(f"[{prop}] tier={tier} cases={n_cases} states={total.states} transitions={total.transitions} evaluations={total.evaluations} nontrivial={total.nontrivial} outcomes={len(total.outcomes)} skipped={sum(total.skipped.values())} wall={wall:.1f}s exhaustive={exhaustive}")
     for kid, (k, n) in listed.items():
